@@ -1,0 +1,338 @@
+//! Verification hooks (cargo feature `verif`).
+//!
+//! This module is compiled only with `--features verif`. It offers:
+//!
+//!  - an [`Observer`] that is notified, on the calling thread, before and after every send on a
+//!    `NetworkSender`, before and after every receive on a `NetworkReceiver` and when a worker
+//!    thread starts and ends. Since the callbacks are synchronous they can also be used for
+//!    injecting delays or for parking a thread (lock-step scheduling);
+//!  - [`GraphDump`], a description of the execution graph built by the scheduler and of the
+//!    addresses assigned by the network topology, obtained without starting any worker.
+//!
+//! Nothing in here changes the behaviour of the engine when no observer is installed.
+
+use std::sync::atomic::{AtomicBool, Ordering};
+use std::sync::Arc;
+
+use parking_lot::RwLock;
+use serde::Serialize;
+
+use crate::network::{Coord, NetworkMessage, ReceiverEndpoint};
+use crate::operator::StreamElement;
+
+/// Coordinates of a replica.
+#[derive(Debug, Clone, Copy, PartialEq, Eq, Hash, PartialOrd, Ord, Default)]
+pub struct Loc {
+    pub block_id: u64,
+    pub host_id: u64,
+    pub replica_id: u64,
+}
+
+impl From<Coord> for Loc {
+    fn from(c: Coord) -> Self {
+        Loc {
+            block_id: c.block_id,
+            host_id: c.host_id,
+            replica_id: c.replica_id,
+        }
+    }
+}
+
+/// The receiving side of a link: the consumer replica and the block the data comes from.
+#[derive(Debug, Clone, Copy, PartialEq, Eq, Hash, PartialOrd, Ord, Default)]
+pub struct Endpoint {
+    pub to: Loc,
+    pub prev_block_id: u64,
+}
+
+impl From<ReceiverEndpoint> for Endpoint {
+    fn from(e: ReceiverEndpoint) -> Self {
+        Endpoint {
+            to: e.coord.into(),
+            prev_block_id: e.prev_block_id,
+        }
+    }
+}
+
+/// Kind of a stream element.
+#[derive(Debug, Clone, Copy, PartialEq, Eq, Hash, PartialOrd, Ord)]
+pub enum ElemKind {
+    Item,
+    Timestamped,
+    Watermark,
+    FlushBatch,
+    Terminate,
+    FlushAndRestart,
+}
+
+/// Summary of one stream element of a message.
+#[derive(Debug, Clone, Copy, PartialEq, Eq, Hash)]
+pub struct ElemInfo {
+    pub kind: ElemKind,
+    /// Timestamp of `Timestamped` and `Watermark` elements.
+    pub ts: Option<i64>,
+    /// Hash of the serialized element (see [`digest`]).
+    pub digest: u64,
+}
+
+/// Callbacks invoked synchronously by the engine, on the thread performing the operation.
+#[allow(unused_variables)]
+pub trait Observer: Send + Sync {
+    /// A replica is about to enqueue `msg` to the link towards `ep`. `remote` is true when the
+    /// link passes through a multiplexer (TCP).
+    fn before_send(&self, from: Loc, ep: Endpoint, remote: bool, msg: &[ElemInfo]) {}
+    /// The message has been enqueued (or the send failed).
+    fn after_send(&self, from: Loc, ep: Endpoint) {}
+    /// A replica is about to wait on the endpoint.
+    fn before_recv(&self, ep: Endpoint) {}
+    /// The wait on the endpoint is over; `msg` is what has been received, if anything.
+    fn after_recv(&self, ep: Endpoint, msg: Option<(Loc, &[ElemInfo])>) {}
+    /// A worker thread starts executing a replica.
+    fn worker_start(&self, loc: Loc) {}
+    /// A worker thread ended the execution of a replica.
+    fn worker_end(&self, loc: Loc, panicked: bool) {}
+}
+
+static ENABLED: AtomicBool = AtomicBool::new(false);
+static OBSERVER: RwLock<Option<Arc<dyn Observer>>> = RwLock::new(None);
+
+/// Install (or remove) the process-wide observer.
+pub fn set_observer(observer: Option<Arc<dyn Observer>>) {
+    let mut lock = OBSERVER.write();
+    ENABLED.store(observer.is_some(), Ordering::SeqCst);
+    *lock = observer;
+}
+
+#[inline]
+pub(crate) fn enabled() -> bool {
+    ENABLED.load(Ordering::Relaxed)
+}
+
+#[inline]
+fn observer() -> Option<Arc<dyn Observer>> {
+    if enabled() {
+        OBSERVER.read().clone()
+    } else {
+        None
+    }
+}
+
+/// Hash of the `bincode` serialization of a value.
+pub fn digest<T: Serialize>(value: &T) -> u64 {
+    use std::hash::Hasher;
+    let bytes = bincode::serialize(value).unwrap_or_default();
+    let mut hasher = wyhash::WyHash::with_seed(0x5eed);
+    hasher.write(&bytes);
+    hasher.finish()
+}
+
+fn elem_info<T: Serialize>(el: &StreamElement<T>) -> ElemInfo {
+    let (kind, ts) = match el {
+        StreamElement::Item(_) => (ElemKind::Item, None),
+        #[allow(clippy::unnecessary_cast)]
+        StreamElement::Timestamped(_, ts) => (ElemKind::Timestamped, Some(ts_to_i64(ts))),
+        StreamElement::Watermark(ts) => (ElemKind::Watermark, Some(ts_to_i64(ts))),
+        StreamElement::FlushBatch => (ElemKind::FlushBatch, None),
+        StreamElement::Terminate => (ElemKind::Terminate, None),
+        StreamElement::FlushAndRestart => (ElemKind::FlushAndRestart, None),
+    };
+    ElemInfo {
+        kind,
+        ts,
+        digest: digest(el),
+    }
+}
+
+#[cfg(feature = "timestamp")]
+fn ts_to_i64(ts: &crate::operator::Timestamp) -> i64 {
+    *ts
+}
+#[cfg(not(feature = "timestamp"))]
+fn ts_to_i64(_ts: &crate::operator::Timestamp) -> i64 {
+    0
+}
+
+/// Summarize the content of a message.
+pub(crate) fn summarize<T: Serialize>(msg: &NetworkMessage<T>) -> Vec<ElemInfo> {
+    msg.verif_elements().iter().map(elem_info).collect()
+}
+
+/// Guard of a send operation: `before_send` on creation, `after_send` on drop.
+pub(crate) struct SendGuard {
+    active: Option<(Arc<dyn Observer>, Loc, Endpoint)>,
+}
+
+pub(crate) fn send_guard<T: Serialize>(
+    msg: &NetworkMessage<T>,
+    ep: ReceiverEndpoint,
+    remote: bool,
+) -> SendGuard {
+    match observer() {
+        None => SendGuard { active: None },
+        Some(obs) => {
+            let from: Loc = msg.sender().into();
+            let ep: Endpoint = ep.into();
+            let info = summarize(msg);
+            obs.before_send(from, ep, remote, &info);
+            SendGuard {
+                active: Some((obs, from, ep)),
+            }
+        }
+    }
+}
+
+impl Drop for SendGuard {
+    fn drop(&mut self) {
+        if let Some((obs, from, ep)) = self.active.take() {
+            obs.after_send(from, ep);
+        }
+    }
+}
+
+/// Guard of a receive operation: `before_recv` on creation; on drop, `after_recv(None)` unless a
+/// message has been reported in the meantime through [`recv_done`].
+pub(crate) struct RecvGuard {
+    active: Option<(Arc<dyn Observer>, Endpoint)>,
+}
+
+thread_local! {
+    /// Set by `recv_done`, so that the guard of the same receive does not report a second time.
+    static RECV_REPORTED: std::cell::Cell<bool> = const { std::cell::Cell::new(false) };
+}
+
+pub(crate) fn recv_guard(ep: ReceiverEndpoint) -> RecvGuard {
+    match observer() {
+        None => RecvGuard { active: None },
+        Some(obs) => {
+            let ep: Endpoint = ep.into();
+            RECV_REPORTED.with(|r| r.set(false));
+            obs.before_recv(ep);
+            RecvGuard {
+                active: Some((obs, ep)),
+            }
+        }
+    }
+}
+
+impl Drop for RecvGuard {
+    fn drop(&mut self) {
+        if let Some((obs, ep)) = self.active.take() {
+            if !RECV_REPORTED.with(|r| r.replace(false)) {
+                obs.after_recv(ep, None);
+            }
+        }
+    }
+}
+
+/// Report a received message.
+pub(crate) fn recv_done(ep: ReceiverEndpoint, from: Coord, info: Vec<ElemInfo>) {
+    if let Some(obs) = observer() {
+        RECV_REPORTED.with(|r| r.set(true));
+        obs.after_recv(ep.into(), Some((from.into(), &info)));
+    }
+}
+
+/// Report the outcome of a select over two endpoints: the endpoint that did not produce a message
+/// is reported with `None`.
+pub(crate) fn select_done(
+    ep_a: ReceiverEndpoint,
+    ep_b: ReceiverEndpoint,
+    a: Option<(Coord, Vec<ElemInfo>)>,
+    b: Option<(Coord, Vec<ElemInfo>)>,
+) {
+    if let Some(obs) = observer() {
+        match &a {
+            Some((from, info)) => obs.after_recv(ep_a.into(), Some(((*from).into(), info))),
+            None => obs.after_recv(ep_a.into(), None),
+        }
+        match &b {
+            Some((from, info)) => obs.after_recv(ep_b.into(), Some(((*from).into(), info))),
+            None => obs.after_recv(ep_b.into(), None),
+        }
+    }
+}
+
+pub(crate) fn select_enter(ep_a: ReceiverEndpoint, ep_b: ReceiverEndpoint) {
+    if let Some(obs) = observer() {
+        obs.before_recv(ep_a.into());
+        obs.before_recv(ep_b.into());
+    }
+}
+
+/// Guard of a worker thread: `worker_start` on creation, `worker_end` on drop.
+pub(crate) struct WorkerGuard {
+    loc: Loc,
+}
+
+pub(crate) fn worker_guard(coord: Coord) -> WorkerGuard {
+    let loc: Loc = coord.into();
+    if let Some(obs) = observer() {
+        obs.worker_start(loc);
+    }
+    WorkerGuard { loc }
+}
+
+impl Drop for WorkerGuard {
+    fn drop(&mut self) {
+        if let Some(obs) = observer() {
+            obs.worker_end(self.loc, std::thread::panicking());
+        }
+    }
+}
+
+/// Declared replication of a block.
+#[derive(Debug, Clone, Copy, PartialEq, Eq, Hash, PartialOrd, Ord)]
+pub enum DumpReplication {
+    Unlimited,
+    Limited(u64),
+    Host,
+    One,
+}
+
+impl From<crate::block::Replication> for DumpReplication {
+    fn from(r: crate::block::Replication) -> Self {
+        match r {
+            crate::block::Replication::Unlimited => DumpReplication::Unlimited,
+            crate::block::Replication::Limited(n) => DumpReplication::Limited(n),
+            crate::block::Replication::Host => DumpReplication::Host,
+            crate::block::Replication::One => DumpReplication::One,
+        }
+    }
+}
+
+/// A block of the job graph with its replicas in the execution graph.
+#[derive(Debug, Clone, PartialEq, Eq, PartialOrd, Ord)]
+pub struct BlockDump {
+    pub block_id: u64,
+    pub replication: DumpReplication,
+    pub is_only_one_strategy: bool,
+    /// `(replica, global id)`, sorted.
+    pub replicas: Vec<(Loc, u64)>,
+    /// The replica list in the order handed to the operators (`ExecutionMetadata::replicas`).
+    pub replicas_in_metadata_order: Vec<Loc>,
+}
+
+/// A link of the execution graph.
+#[derive(Debug, Clone, PartialEq, Eq, PartialOrd, Ord)]
+pub struct LinkDump {
+    pub from: Loc,
+    pub to: Loc,
+    /// Index of the data type of the link among the sorted debug representations of the type
+    /// ids in this dump (only meaningful for equality inside one process).
+    pub typ: String,
+    pub fragile: bool,
+}
+
+/// The execution graph and the address map as derived by one host.
+#[derive(Debug, Clone, PartialEq, Eq, Default)]
+pub struct GraphDump {
+    pub host_id: u64,
+    /// Sorted by block id.
+    pub blocks: Vec<BlockDump>,
+    /// Job-graph edges `(from block, to block, fragile)`, sorted.
+    pub job_edges: Vec<(u64, u64, bool)>,
+    /// Sorted.
+    pub links: Vec<LinkDump>,
+    /// `(consumer block, consumer host, producer block) -> (address, port)`, sorted.
+    pub demux_addresses: Vec<((u64, u64, u64), (String, u16))>,
+}
